@@ -55,6 +55,12 @@ def gen_case(src, depth=3):
             values.append({"v": v, "m": "conforming", "at": "."})
         else:
             values.append({"v": r[0], "m": r[1], "at": r[2]})
+    # a pair (component dropped / the same component renamed): the renamed value only has one more, unrelated entry than the other one
+    if src.bool(0.5):
+        pr = IG.drop_and_rename(src, tree, IG.conforming(src, tree))
+        if pr is not None:
+            values.append({"v": pr[0], "m": "missing-component", "at": pr[2]})
+            values.append({"v": pr[1], "m": "renamed-component", "at": pr[2], "pair": len(values) - 1})
     direct = src.bool(0.5)
     cands = [i for i, x in enumerate(values) if IG.multi_keys(x["v"])]
     multi = src.choice(cands) if cands and src.bool(0.85) else None
@@ -186,6 +192,21 @@ def judge_model(ctx, case, resp):
                      sample={"type": shp, "value": show(v), "who": who, "rule": rule, "result": show(got)} if nt_tree and who == "Id" else None)
             if f is not None and fail is None:
                 fail = f
+    # an unrelated extra entry cannot make up for a missing component: where the value without the component is refused (null), the value
+    # whose component is merely renamed must be refused too (holds whichever way missing components and extra entries are read)
+    for i, x in enumerate(values):
+        if x.get("m") == "renamed-component" and fail is None:
+            j = x["pair"]
+            for who in ("Id", "Out %d", "Svc %d", "Inv %d", "Call %d"):
+                a = result(who % j if "%d" in who else who, j)
+                b = result(who % i if "%d" in who else who, i)
+                ctx.classes["out:renamed-vs-missing:" + ("both-null" if W(a) is None and W(b) is None else "both-kept" if W(a) is not None and W(b) is not None
+                                                          else "differ")] += 1
+                if W(a) is None and W(b) is not None:
+                    fail = Fail("C11/output:renamed-component-accepted", "%r with output variable of type %s: the value %s (component missing at %s) is "
+                                "refused (null), but the same value with that component renamed, %s, is returned as %s\n%s" % (
+                                    who % i if "%d" in who else who, shp, show(values[j]["v"]), x["at"], show(x["v"]), show(b), case["xml"]))
+                    break
     return fail
 
 
